@@ -154,3 +154,44 @@ def _stride_ok(ar: ast.Call, sl: SearchLoop, reshape_width_of: str):
     if widths != {u(step)}:
         return False, f"uses stride `{u(step)}` but the step's scores are shaped with width {sorted(widths)}"
     return True, ""
+
+
+def make_call_summary(res, ctx_func: FuncInfo):
+    """Slot-aware summaries for calls to package functions whose every return is a tuple: slot i of the
+    result derives (value flow) only from the arguments bound to the parameters that slot i of the callee's
+    return derives from."""
+    from sa.resolve import bind_args
+    cache = {}
+
+    def summary(call: ast.Call, slot):
+        r = res.resolve_call(call, ctx_func)
+        if not r:
+            return None
+        callee = r[0][-1]
+        key = id(callee)
+        if key not in cache:
+            rdc = ReachingDefs(callee.node)
+            per_slot = None
+            for st, _ in rdc.return_envs:
+                if not isinstance(st.value, ast.Tuple):
+                    per_slot = None
+                    break
+                cur = []
+                for e in st.value.elts:
+                    der = rdc.derives(e, value_flow=True)
+                    cur.append({d.name for d in der.defs if d.kind == "param"})
+                if per_slot is None:
+                    per_slot = cur
+                elif len(per_slot) == len(cur):
+                    per_slot = [a | b for a, b in zip(per_slot, cur)]
+                else:
+                    per_slot = None
+                    break
+            cache[key] = per_slot
+        per_slot = cache[key]
+        if per_slot is None or not slot or slot[0] >= len(per_slot):
+            return None
+        b = bind_args(call, callee, r[1])
+        return [a for p, a, _ in b.pairs if p.name in per_slot[slot[0]]]
+
+    return summary
